@@ -79,7 +79,12 @@ type Transport struct {
 	// Wrapped: the mock plays the net.Conn underneath one of the library's own buffering wrappers
 	// (transport.NewTransport). Bytes that reach the connection are on the wire: every successful
 	// Write is followed by a synthetic flush record.
-	Wrapped        bool
+	Wrapped bool
+	// write deadlines: the goroutine that armed the deadline currently in force ("" = none). A write
+	// executed by ANOTHER goroutine while it is armed may be cut short by it at any moment; the mock
+	// takes the worst case (half of the bytes go out, then the timeout). The library arms and clears a
+	// deadline inside the write lock, so this never happens unless that discipline is broken.
+	deadlineBy     string
 	wstate, rstate byte
 }
 
@@ -236,10 +241,30 @@ func (m *Transport) writeFault() error {
 	return nil
 }
 
+// ErrForeignDeadline is returned by a write that ran under a deadline armed by another goroutine.
+type foreignDeadline struct{}
+
+func (foreignDeadline) Error() string {
+	return "mock: i/o timeout (write deadline armed by another goroutine expired)"
+}
+func (foreignDeadline) Timeout() bool   { return true }
+func (foreignDeadline) Temporary() bool { return true }
+
+func (m *Transport) cutShort() bool {
+	return m.deadlineBy != "" && m.deadlineBy != thr() && !m.IsClosed
+}
+
 func (m *Transport) Write(p []byte) (int, error) {
 	vsched.Op("T.Write", m.o(), rw, func() bool { return !m.Stalled || m.IsClosed })
 	m.plainW("Write")
 	payloadRead("Write", p)
+	if m.cutShort() && len(p) > 1 {
+		m.writes++
+		h := len(p) / 2
+		m.ev('W', append([]byte(nil), p[:h]...), 1, false)
+		m.Unflushed++
+		return h, foreignDeadline{}
+	}
 	if err := m.writeFault(); err != nil {
 		m.ev('W', append([]byte(nil), p...), 1, true)
 		return 0, err
@@ -260,6 +285,13 @@ func (m *Transport) Writev(b transport.Buffers) (int64, error) {
 	var data []byte
 	for _, x := range b {
 		data = append(data, x...)
+	}
+	if m.cutShort() && len(data) > 1 {
+		m.writes++
+		h := len(data) / 2
+		m.ev('V', data[:h], len(b), false)
+		m.Unflushed++
+		return int64(h), foreignDeadline{}
 	}
 	if err := m.writeFault(); err != nil {
 		m.ev('V', data, len(b), true)
@@ -314,8 +346,10 @@ func (m *Transport) SetReadDeadline(t time.Time) error { return nil }
 func (m *Transport) SetWriteDeadline(t time.Time) error {
 	vsched.Op("T.SetWriteDeadline", m.o(), rw, nil)
 	note := "set"
+	m.deadlineBy = thr()
 	if t.IsZero() {
 		note = "clear"
+		m.deadlineBy = ""
 	}
 	m.Log = append(m.Log, Ev{Kind: 'D', Note: note, Step: step(), Now: now(), Thread: thr(), Closed: m.IsClosed})
 	return nil
